@@ -7,15 +7,21 @@ DROPPED_GEN = ['libstdc++ headers (replaced by model/include)', 'nothing of Comp
                'VM/src/instr.cpp: only the Instruction factory functions are extracted']
 
 
-def _gen_build(contract_c, fn, layout=False, cdefs=()):
+def _gen_build(contract_c, fn, layout=False, cdefs=(), unwind=None, redirect=None, replace=(), loops=None):
     def build(gw, rl):
         n_layout, xlayout = genunit.gen_mirror(gw)
-        name, expected = genunit.build_gen_unit(gw, rl, layout_text=xlayout if layout else None)
+        name, expected = genunit.build_gen_unit(gw, rl, layout_text=xlayout if layout else None, redirects={redirect: True} if redirect else None)
         rl.check(expected)
         b = {'c_sources': [os.path.join(CONTRACTS, contract_c)] if contract_c else [], 'cxx_sources': [os.path.join(gw, name)], 'cdefs': list(cdefs),
              'entry': 'h_' + fn, 'dropped': DROPPED_GEN, 'min_obligations': 10,
              # narrowing integer conversions are well defined (modular) in C++20: no --conversion-check for the compiler units
              'cbmc_flags': ['--unwinding-assertions', '--no-malloc-may-fail']}
+        if replace:
+            b['replace'] = list(replace)
+        if loops:
+            b['loops_tpl'] = os.path.join(CONTRACTS, loops)
+        if unwind:
+            b['cbmc_flags'] = b['cbmc_flags'] + ['--unwind', str(unwind)]
         if layout:
             b['c_sources'] = [os.path.join(gw, 'layout_gen_c.c')]
             b['entry'] = 'h_layout'
@@ -41,4 +47,27 @@ def groups():
                             _gen_build('gen_tbl.c', fn, cdefs=[f'TBL_CAP={K}']), timeout=1800, tier=tier, bounded=BND % K))
     for fn in ('strToInt', 'strToIntSilent'):
         gs.append(Group('gen_' + fn, ['C20', 'C04', 'C02'], f'{fn} (Compiler/src/gen.cpp)', 'c_' + fn, _gen_build('gen_misc.c', fn), timeout=600))
+    gs.append(Group('gen_fetchTemporary', ['C03', 'C01'], 'FunctionGenState::fetchTemporary (Compiler/src/gen.cpp)', 'c_fetchTemporary',
+                    _gen_build('gen_disp.c', 'fetchTemporary', loops='gen_disp.loops.json.in'), timeout=7200, expect_loops=1, tier='thorough',
+                    note='unbounded frame size, search loop closed by a loop contract (slow: byte-granular access to a symbolic-size array of 10-byte VReg records)'))
+    gs.append(Group('genU_fetchTemporary', ['C03', 'C01'], 'FunctionGenState::fetchTemporary (Compiler/src/gen.cpp)', 'c_fetchTemporary',
+                    _gen_build('gen_disp.c', 'fetchTemporary', cdefs=['REG_CAP=4'], unwind=6), timeout=900,
+                    bounded='BOUNDED stand-in: at most 4 registers in the frame, --unwind 6 --unwinding-assertions (the unbounded loop-contract proof is in the thorough tier)'))
+    gs.append(Group('genU_fetchVariableRegister', ['C03', 'C01', 'C07'], 'FunctionGenState::fetchVariableRegister (Compiler/src/gen.cpp)', 'c_fetchVariableRegister',
+                    _gen_build('gen_disp.c', 'fetchVariableRegister', cdefs=['REG_CAP=4'], unwind=6), timeout=900,
+                    bounded='BOUNDED stand-in: at most 4 registers in the frame, --unwind 6 --unwinding-assertions (the search loop lives in a function with an explicit parameter: its counter cannot be named in a loop contract)'))
+    REPL = ['w_fetchTemporary/c_fetchTemporary', 'w_fetchVariableRegister/c_fetchVariableRegister', 'w_dispatchValue/c_dispatchValue', 'w_dispatchVoid/c_dispatchVoid']
+    gs.append(Group('gen_dispatchLoop', ['C01', 'C16', 'C03'], 'dispatchLoop (Compiler/src/gen.cpp)', 'c_dispatchLoop',
+                    _gen_build('gen_disp.c', 'dispatchLoop', redirect='dispatchLoop', replace=REPL), timeout=900,
+                    note='callees fetchVariableRegister, dispatchValue, dispatchVoid replaced by their contracts'))
+    for fn, props in (('dispatchWhile', ['C01', 'C03']), ('dispatchGoto', ['C01', 'C03']), ('dispatchMark', ['C01', 'C03', 'C07']),
+                      ('dispatchAssign', ['C01']), ('dispatchArgs', ['C03', 'C01'])):
+        gs.append(Group('gen_' + fn, props, f'{fn} (Compiler/src/gen.cpp)', 'c_' + fn,
+                        _gen_build('gen_disp.c', fn, redirect=fn, replace=REPL + (['w_dispatchArgs_rec/c_dispatchArgs_callee'] if fn == 'dispatchArgs' else [])),
+                        timeout=900, note='callees fetchTemporary, fetchVariableRegister, dispatchValue, dispatchVoid replaced by their contracts; the mark table holds at most 4 marks'))
+    for (kr, kt, tier) in ((2, 3, 'quick'), (3, 4, 'thorough')):
+        sfx = '' if tier == 'quick' else '_L'
+        gs.append(Group('genU_popSymbols' + sfx, ['C03', 'C16', 'C04', 'C07', 'C02'], 'GenState::popSymbols (Compiler/src/gen.cpp)', 'c_popSymbols',
+                        _gen_build('gen_sym.c', 'popSymbols', unwind=kr + 2, cdefs=[f'K_REG={kr}', f'K_TBL={kt}']), timeout=3600, tier=tier,
+                        bounded=f'BOUNDED stand-in: <= 2 marks, <= {kr} registers in the routine being finished, tables of capacity {kt}, --unwind {kr + 2} --unwinding-assertions (its two loops live in a function whose locals cannot be named in loop contracts)'))
     return gs
